@@ -4,6 +4,7 @@ package sym
 
 import (
 	"fmt"
+	"os"
 	"runtime/debug"
 	"sort"
 	"strings"
@@ -87,11 +88,33 @@ func (p *Program) Run(entry string, opt Options) *Result {
 	t0 := time.Now()
 	var mu sync.Mutex
 	cond := sync.NewCond(&mu)
+	running := map[int]*Exec{}
 	work := [][]int{{}}
 	active := 0
 	started := 0
 	stop := false
 
+	if os.Getenv("GOSYM_PROGRESS") != "" {
+		go func() {
+			for {
+				time.Sleep(10 * time.Second)
+				mu.Lock()
+				if stop || (len(work) == 0 && active == 0) {
+					mu.Unlock()
+					return
+				}
+				fmt.Fprintf(os.Stderr, "[progress %s] paths=%d aborted=%d queued=%d active=%d violations=%d inconclusive=%d %.0fs\n", entry, res.Paths, res.Aborted, len(work), active, len(res.Violations), len(res.Inconclusive), time.Since(t0).Seconds())
+				if active <= 2 {
+					for w, ex := range running {
+						if ex != nil {
+							fmt.Fprintf(os.Stderr, "   worker %d: prefix=%s decisions=%s steps=%d queries=%d\n", w, decString(ex.prefix), decString(ex.decs), ex.steps, ex.S.Queries)
+						}
+					}
+				}
+				mu.Unlock()
+			}
+		}()
+	}
 	var wg sync.WaitGroup
 	for w := 0; w < opt.Workers; w++ {
 		wg.Add(1)
@@ -154,10 +177,14 @@ func (p *Program) Run(entry string, opt Options) *Result {
 				}
 				ex.Trace = opt.Trace
 				ex.entry = entry
+				mu.Lock()
+				running[w] = ex
+				mu.Unlock()
 				outcome, viol := p.runPath(ex, fn)
 
 				mu.Lock()
 				active--
+				running[w] = nil
 				work = append(work, ex.forks...)
 				res.Transitions += len(ex.decs) - len(prefix)
 				switch {
